@@ -1,0 +1,51 @@
+//go:build verif
+
+// Contracts for the verification machinery in /verif (comment-only; never compiled into a binary).
+// Property C05 (owner half): a pod is only ever matched to a reservation whose owner specification it satisfies.
+
+package reservation
+
+// ---- the three conjuncts of one owner entry ----
+
+// object reference: every non-empty field of the reference equals the pod's field (Kind, ResourceVersion, FieldPath ignored)
+//@ spec func g_objRefMatch(pod *corev1.Pod, o *corev1.ObjectReference) bool = o == nil || ((o.UID == "" || pod.ObjectMeta.UID == o.UID) && (o.Name == "" || pod.ObjectMeta.Name == o.Name) && (o.Namespace == "" || pod.ObjectMeta.Namespace == o.Namespace) && (o.APIVersion == "" || pod.TypeMeta.APIVersion == o.APIVersion))
+
+// one owner reference of the pod satisfies the controller reference
+//@ spec func g_ctrlRefHit(c *schedulingv1alpha1.ReservationControllerReference, w metav1.OwnerReference) bool = (c.OwnerReference.Controller == nil || (w.Controller != nil && deref(c.OwnerReference.Controller) == deref(w.Controller))) && (c.OwnerReference.UID == "" || c.OwnerReference.UID == w.UID) && (c.OwnerReference.Name == "" || c.OwnerReference.Name == w.Name) && (c.OwnerReference.Kind == "" || c.OwnerReference.Kind == w.Kind) && (c.OwnerReference.APIVersion == "" || c.OwnerReference.APIVersion == w.APIVersion)
+
+//@ spec func g_ctrlRefMatch(pod *corev1.Pod, c *schedulingv1alpha1.ReservationControllerReference) bool = c == nil || ((c.Namespace == "" || c.Namespace == pod.ObjectMeta.Namespace) && (exists oi int :: 0 <= oi && oi < len(pod.ObjectMeta.OwnerReferences) && g_ctrlRefHit(c, pod.ObjectMeta.OwnerReferences[oi])))
+
+// label selector: the k8s selector is uninterpreted (spec_selMatches, /verif/lib/C20.spec)
+//@ spec func g_selMatch(lbls map[string]string, sel labels.Selector) bool = sel == nil || spec_selMatches(sel, lbls)
+
+//@ spec func g_ownerMatch(pod *corev1.Pod, o *corev1.ObjectReference, c *schedulingv1alpha1.ReservationControllerReference, sel labels.Selector) bool = g_objRefMatch(pod, o) && g_ctrlRefMatch(pod, c) && g_selMatch(pod.ObjectMeta.Labels, sel)
+
+//@ func MatchObjectRef [C05]
+//@   requires pod != nil
+//@   ensures #iff: result <==> g_objRefMatch(pod, objRef)
+//@   modifies nothing
+
+//@ func MatchReservationControllerReference [C05]
+//@   requires pod != nil
+//@   ensures #iff: result <==> g_ctrlRefMatch(pod, controllerRef)
+//@   modifies nothing
+//@   loop 1 invariant 0 <= $i && $i <= len(pod.ObjectMeta.OwnerReferences)
+//@   loop 1 invariant forall j int :: 0 <= j && j < $i ==> !g_ctrlRefHit(controllerRef, pod.ObjectMeta.OwnerReferences[j])
+
+//@ func MatchLabels [C05]
+//@   ensures #iff: result <==> g_selMatch(podLabels, selector)
+//@   modifies nothing
+
+//@ func (*ReservationOwnerMatcher).Match [C05]
+//@   requires m != nil && pod != nil
+//@   ensures #iff: result <==> g_ownerMatch(pod, m.ReservationOwner.Object, m.ReservationOwner.Controller, m.Selector)
+//@   modifies nothing
+
+// Owners == nil matches nothing; the entries are ORed.
+//@ func MatchReservationOwners [C05]
+//@   requires pod != nil
+//@   ensures #iff: result <==> (exists i int :: 0 <= i && i < len(matchers) && g_ownerMatch(pod, matchers[i].ReservationOwner.Object, matchers[i].ReservationOwner.Controller, matchers[i].Selector))
+//@   modifies nothing
+//@   loop 1 invariant 0 <= $i && $i <= len(matchers)
+//@   loop 1 invariant forall j int :: 0 <= j && j < $i ==> !g_ownerMatch(pod, matchers[j].ReservationOwner.Object, matchers[j].ReservationOwner.Controller, matchers[j].Selector)
+//@   loop 1 invariant forall q *ReservationOwnerMatcher :: !fresh(q) ==> q.Selector == old(q.Selector) && q.ReservationOwner.Object == old(q.ReservationOwner.Object) && q.ReservationOwner.Controller == old(q.ReservationOwner.Controller) && q.ReservationOwner.LabelSelector == old(q.ReservationOwner.LabelSelector)
